@@ -111,6 +111,13 @@ def parseCid (j : Json) : Cid :=
   | [a, b] => (a, b)
   | _ => (99, 99)
 
+/-- a payload field that is present but empty; its hash is SHA-256 of the empty string -/
+def presentEmpty : Payload := ⟨"", 0, hexVal "e3b0c44298fc1c14"⟩
+
+def netTxOf (st : St) (t : Json) : NetTx :=
+  { tx := st.tx? (jNat t "i"),
+    payload := (if jBool t "empty" then some presentEmpty else Nuts.alGet st.payloads (jStr t "pl")) }
+
 /-- garbage universe entries keep their ref in a side table: (idx → ref) is only needed for digests of forged
     messages, which are never printed; refs of garbage in ref lists are taken from `gref` -/
 def parseMsg (st : St) (grefs : Array Ref) (m : Json) : Msg :=
@@ -126,7 +133,7 @@ def parseMsg (st : St) (grefs : Array Ref) (m : Json) : Msg :=
   | "lq" => .listQuery (parseCid m) refs
   | "rq" => .rangeQuery (parseCid m) (jNat m "a") (jNat m "b")
   | "tl" => .txList (parseCid m) (jNat m "num") (jNat m "total")
-      ((jArr m "txs").map (fun t => { tx := st.tx? (jNat t "i"), payload := Nuts.alGet st.payloads (jStr t "pl") }))
+      ((jArr m "txs").map (netTxOf st))
   | "pq" => .payloadQuery (let i := jInt m "ref"; if i < 0 then 0 else refOf i.toNat)
   | "pl" => .payload (let i := jInt m "ref"; if i < 0 then 0 else refOf i.toNat) (Nuts.alGet st.payloads (jStr m "data"))
   | "diag" => .diagnostics
